@@ -7,7 +7,7 @@ set_option maxHeartbeats 4000000 in
 theorem DMon.src (s : Nat) (cl : Client) (rs : DevState) : ∀ a ∈ srcActs s, ∀ st, a.guard st = true → TInv s st cl rs → DUse s st cl → DMon s st cl → DMon s (a.upd st) cl := by
   intro a ha st hg ht hu h
   have tj := ht.joined_src
-  obtain ⟨k1, k2, k3, k4, k5, k6, k7, k8, k9, k10, k11, k12, k13⟩ := hu
+  obtain ⟨k1, k2, k3, k4, k5, k6, k7, k8, k9, k10, k11, k12, k13, k14⟩ := hu
   obtain ⟨m1, m2, m3⟩ := h
   have hwf := cv_wmap_fail st.sinkCh st.F
   have hwo := fun b => cv_wmap_ok k1 st.F b
@@ -29,10 +29,30 @@ theorem DMon.src (s : Nat) (cl : Client) (rs : DevState) : ∀ a ∈ srcActs s, 
     constructor
     all_goals (try simp only [hs])
     all_goals (first | assumption | grind)
+  -- src.abort
+  case inr.inr.inr.inr.inr.inr.inr.inr.inr.inr.inr.inr.inr.inr.inr.inr.inr.inl =>
+    have hsh : srcHold st.src.pc = true := by (have := hg.1; simp_all [srcHold])
+    have hp : (cv st.sinkCh).pending = true := by
+      rcases k7 hsh with h | h
+      · exact h
+      · have := hg.1; rw [h.1] at this; cases this
+    obtain ⟨hok, hcv⟩ := cv_wabort k1 hp
+    constructor
+    all_goals (try simp only [hcv, logpos])
+    all_goals (first | assumption | grind)
   -- src.commit
   case inr.inr.inr.inr.inr.inr.inr.inr.inr.inr.inr.inr.inr.inr.inr.inr.inr.inr.inl =>
     have hsh : srcHold st.src.pc = true := by (have := hg.1; simp_all [srcHold])
-    have hp : (cv st.sinkCh).pending = true := k7 hsh
+    by_cases hcn : st.src.cur = none
+    · -- the unmap after an aborted write (empty frame): nothing in flight, nothing changes
+      have hs : (step st.sinkCh Op.wcommit).1 = st.sinkCh := wcommit_idle (k14 hg.1 hcn)
+      constructor
+      all_goals (try simp only [hs, hcn, addFrame, Option.isSome_none, Bool.false_and, Bool.or_false, ite_false, Nat.add_zero, logpos])
+      all_goals (first | assumption | grind)
+    have hp : (cv st.sinkCh).pending = true := by
+      rcases k7 hsh with h | h
+      · exact h
+      · exact absurd h.2 hcn
     obtain ⟨hok, hcv⟩ := hcm hp
     constructor
     all_goals (try simp only [hcv])
@@ -51,7 +71,7 @@ theorem DMon.snk (s : Nat) (cl : Client) (rs : DevState) : ∀ a ∈ snkActs s, 
   intro a ha st hg ht hu h
   have t1 := ht.start_snk; have t3 := ht.joined_snk; have hs8 := stage_le cl.pc s
   have hch := clHolds0_stop cl.pc s
-  obtain ⟨k1, k2, k3, k4, k5, k6, k7, k8, k9, k10, k11, k12, k13⟩ := hu
+  obtain ⟨k1, k2, k3, k4, k5, k6, k7, k8, k9, k10, k11, k12, k13, k14⟩ := hu
   obtain ⟨m1, m2, m3⟩ := h
   have hn1 := nrd_pos k3
   have hrm := cv_rmap0 k1 hn1
